@@ -1,0 +1,108 @@
+//go:build verif
+
+package main
+
+import (
+	"encoding/json"
+	"os"
+	"strings"
+	"sync"
+	"time"
+)
+
+// Instrumentation for runtime monitors (build tag "verif" only).
+//
+// verifEvent records a sequence-numbered, monotonic-timestamped event and
+// optionally delays the calling goroutine (a failpoint) so that monitors can
+// steer queue occupancy and interleavings. Nothing here changes the behaviour
+// of the agent apart from timing.
+
+type verifEvt struct {
+	Seq     uint64 `json:"seq"`
+	T       int64  `json:"t"` // ns since process start (monotonic)
+	Kind    string `json:"kind"`
+	Subject string `json:"subject,omitempty"`
+	A       int    `json:"a"`
+	B       int    `json:"b"`
+}
+
+var (
+	verifMu      sync.Mutex
+	verifSeq     uint64
+	verifLog     []verifEvt
+	verifLogging bool
+	verifDelays  = map[string]time.Duration{}
+	verifStart   = time.Now()
+	verifSink    *os.File
+)
+
+func init() {
+	if v := os.Getenv("VERIF_DELAYS"); v != "" {
+		for _, kv := range strings.Split(v, ",") {
+			if k, d, ok := strings.Cut(kv, "="); ok {
+				if dur, err := time.ParseDuration(d); err == nil {
+					verifDelays[k] = dur
+				}
+			}
+		}
+	}
+	if p := os.Getenv("VERIF_EVENT_LOG"); p != "" {
+		if f, err := os.OpenFile(p, os.O_CREATE|os.O_WRONLY|os.O_APPEND, 0600); err == nil {
+			verifSink = f
+			verifLogging = true
+		}
+	}
+}
+
+func verifEvent(kind, subject string, a, b int) {
+	verifMu.Lock()
+	d := verifDelays[kind]
+	if verifLogging {
+		verifSeq++
+		e := verifEvt{Seq: verifSeq, T: int64(time.Since(verifStart)), Kind: kind, Subject: subject, A: a, B: b}
+		if verifSink != nil {
+			if data, err := json.Marshal(e); err == nil {
+				verifSink.Write(append(data, '\n')) //nolint:errcheck
+			}
+		} else {
+			verifLog = append(verifLog, e)
+		}
+	}
+	verifMu.Unlock()
+	if d > 0 {
+		time.Sleep(d)
+	} else if d < 0 {
+		// negative value: yield only
+		for i := 0; i < int(-d); i++ {
+			time.Sleep(0)
+		}
+	}
+}
+
+// verifSetLogging switches in-memory event recording on or off and clears the log.
+func verifSetLogging(on bool) {
+	verifMu.Lock()
+	verifLogging = on || verifSink != nil
+	verifLog = nil
+	verifMu.Unlock()
+}
+
+// verifSetDelay installs (d != 0) or removes (d == 0) a failpoint delay for an event kind.
+func verifSetDelay(kind string, d time.Duration) {
+	verifMu.Lock()
+	if d == 0 {
+		delete(verifDelays, kind)
+	} else {
+		verifDelays[kind] = d
+	}
+	verifMu.Unlock()
+}
+
+// verifSnapshot returns a copy of the recorded events.
+func verifSnapshot() []verifEvt {
+	verifMu.Lock()
+	out := make([]verifEvt, len(verifLog))
+	copy(out, verifLog)
+	verifMu.Unlock()
+	return out
+}
